@@ -100,11 +100,20 @@ type VObs struct {
 var metaVal = map[string]string{"v1": "alpha", "v2": ""}
 var metaKey = map[string]string{"k1": "team", "k2": "io.example/stage"}
 
-func metaMap(m map[string]string) map[string]string {
+// a second rendering of the same atoms: keys and values that contain the characters pairs are usually joined with, such that
+// the pair (k1, v1) and the pair (k2, v2) READ the same ("build=id" = "42" / "build" = "id=42") although they share neither key nor value
+var metaVal2 = map[string]string{"v1": "42", "v2": "id=42"}
+var metaKey2 = map[string]string{"k1": "build=id", "k2": "build"}
+
+func metaMap(m map[string]string, salt ...int) map[string]string {
+	keys, vals := metaKey, metaVal
+	if len(salt) > 0 && salt[0]%3 == 2 {
+		keys, vals = metaKey2, metaVal2
+	}
 	out := map[string]string{}
 	for _, k := range sortedKeys(m) {
 		if m[k] != "-" {
-			out[metaKey[k]] = metaVal[m[k]]
+			out[keys[k]] = vals[m[k]]
 		}
 	}
 	return out
@@ -344,7 +353,7 @@ func buildAndVerify(vc vcase) VObs {
 	var outcome *notation.VerificationOutcome
 	var verr error
 	ctx := context.Background()
-	required := metaMap(in.Required)
+	required := metaMap(in.Required, vc.sigMut)
 	mt := mediaTypeOf(vc.format)
 	panicked, msg := guarded(func() {
 		if vc.sigMut%3 == 1 {
@@ -756,7 +765,7 @@ func (fx *vfixture) payload() []byte {
 	if fx.in.Desc.MT == "unsigned" {
 		d.MediaType = "" // the signed payload carries no media type
 	}
-	if ann := metaMap(fx.in.Signed); len(ann) > 0 {
+	if ann := metaMap(fx.in.Signed, fx.payloadSalt); len(ann) > 0 {
 		d.Annotations = ann
 	}
 	b, err := json.Marshal(map[string]interface{}{"targetArtifact": d})
@@ -774,7 +783,8 @@ func (fx *vfixture) presentedDesc(alg digest.Algorithm) ocispec.Descriptor {
 	}
 	d := ocispec.Descriptor{Digest: digestOf(alg, content), Size: int64(len(blobA))}
 	if !f.SzEq {
-		d.Size = int64(len(blobC))
+		// another size: of other content, one off in either direction, or none at all (0 is the size of the empty blob, not "unstated")
+		d.Size = []int64{int64(len(blobC)), 0, int64(len(blobA)) + 1, int64(len(blobA)) - 1}[fx.payloadSalt%4]
 	}
 	switch f.MT {
 	case "same", "unsigned":
